@@ -45,11 +45,18 @@ macro_rules! read_hex {
         } else {
             let mut i = 0;
             loop {
-                let high = $crate::HEX_INVERSE[$input[i * 2] as usize];
+                // bytes >= 128 are outside the table: not hex
+                let high = match $crate::HEX_INVERSE.get($input[i * 2] as usize) {
+                    Some(v) => *v,
+                    None => 255,
+                };
                 if high == 255 {
                     break Err($crate::InnerError::BadHexInput.into());
                 }
-                let low = $crate::HEX_INVERSE[$input[i * 2 + 1] as usize];
+                let low = match $crate::HEX_INVERSE.get($input[i * 2 + 1] as usize) {
+                    Some(v) => *v,
+                    None => 255,
+                };
                 if low == 255 {
                     break Err($crate::InnerError::BadHexInput.into());
                 }
